@@ -95,8 +95,12 @@ def pct_strategy(est_steps=2000, depth=4, stalls=0):
     )
 
 
+def _with_flips(sched, flips):
+    return dict(sched, flips=flips) if flips else sched
+
+
 def sched_strategy(max_len=200, est_steps=2000, depth=4, stalls=0):
-    return st.one_of(
+    base = st.one_of(
         st.just({'kind': 'default'}),
         sparse_strategy(max_pos=max(50, est_steps // 4)),
         tape_strategy(max_len),
@@ -104,6 +108,8 @@ def sched_strategy(max_len=200, est_steps=2000, depth=4, stalls=0):
         pct_strategy(est_steps, depth, stalls),
         pct_strategy(est_steps, depth, stalls),
     )
+    # `flips`: bits for the binary decisions that are not thread choices (timed lock wait: expiry vs. same-instant release)
+    return st.builds(_with_flips, base, st.one_of(st.just([]), st.just([]), st.lists(st.sampled_from([0, 1, 1]), min_size=1, max_size=6)))
 
 
 # ------------------------------------------------------------------ running one simulated case
@@ -144,6 +150,7 @@ def run_sim(
         stall_budget=stall_budget,
         creep=creep,
     )
+    sim.flip_bits = tuple(sched.get('flips', ()))
     gc_was = gc.isenabled()
     gc.disable()
     if lines:
@@ -155,6 +162,8 @@ def run_sim(
             linemon.enable(False)
         if gc_was:
             gc.enable()
+        ds.CASE_STATS['flip_points'] += sim.nflips
+        ds.CASE_STATS['flips_taken'] += sim.flips_taken
     return SimOutcome(sim, result, exc)
 
 
